@@ -228,3 +228,38 @@ class ResolverBake(Contract):
 
 
 CONTRACTS.append(ResolverBake())
+
+
+class TypeResolverBake(Contract):
+    """TypeResolver.bake: the decorated callable becomes the type resolver of the ABSTRACT type it names in this schema; a missing implementation, an
+    unknown type or a non-abstract type is refused"""
+    key = 'tartiflette/resolver/type_resolver.py::TypeResolver.bake'
+    property_ids = ('C01', 'C17')
+    params = ['self', 'schema']
+    self_class = 'TypeResolver'
+    modifies_fields = ('type_resolver',)
+
+    def _type(self, A):
+        return lookup(V.ditems(attr0(A['schema'], 'type_definitions')), attr0(A['self'], 'name'))
+
+    def pre(self, A, st):
+        me, s = A['self'], A['schema']
+        t = self._type(A)
+        return [('type_resolver', z3.And(V.oref(me) >= 0, V.is_Str(attr0(me, 'name')), z3.Or(attr0(me, '_implementation') == V.None_, V.is_Fun(attr0(me, '_implementation'))))),
+                ('schema', z3.And(exact(s, 'GraphQLSchema'), V.oref(s) >= 0, V.is_Dict(attr0(s, 'type_definitions')))),
+                ('named_type', z3.Implies(t != V.Missing, z3.And(z3.Or(exact(t, 'GraphQLInterfaceType'), exact(t, 'GraphQLUnionType'), exact(t, 'GraphQLObjectType'), exact(t, 'GraphQLScalarType'),
+                                                                       exact(t, 'GraphQLEnumType'), exact(t, 'GraphQLInputObjectType')), V.oref(t) >= 0)))]
+
+    def post(self, A, st0, out):
+        me, st = A['self'], out.st
+        impl, t = attr0(me, '_implementation'), self._type(A)
+        abstract = inst(t, 'GraphQLAbstractType')
+        if out.kind == 'raise':
+            return [('refused_only_for_a_reason', z3.Or(z3.And(z3.Not(py_truthy(impl)), exact(out.value, 'MissingImplementation')),
+                                                        z3.And(py_truthy(impl), t == V.Missing, exact(out.value, 'UnknownTypeDefinition')),
+                                                        z3.And(py_truthy(impl), t != V.Missing, z3.Not(abstract), exact(out.value, 'InvalidType'))))]
+        return [('accepted_only_for_an_abstract_type', z3.And(py_truthy(impl), t != V.Missing, abstract)),
+                ('implementation_is_the_types_resolver', fld(st, 'type_resolver', t) == impl)]
+
+
+CONTRACTS.append(TypeResolverBake())
